@@ -143,7 +143,8 @@ def swap_alphabet(n, env):
           ((1, 2), (2, 3), (3, 1)), ((2, 4), (4, 2)), ((0, 1), (1, 2), (2, 0))]
     ops = [("sw", s_) for s_ in sw if max(max(p_) for p_ in s_) < n]
     ops += [("bs", 0, 1, env.R2, "Rx", 0), ("ps", n - 1, env.PH[0], 0), ("loss", 2, env.L[1]),
-            ("uni", 2, 1, False), ("add", "bs2", n - 2, True), ("bar", None)]
+            ("uni", 2, 1, False), ("add", "bs2", n - 2, True), ("bar", None),
+            ("add", "h3mid", n - 2, False), ("add", "h3io", 1, False)]
     return ops
 
 
@@ -192,7 +193,8 @@ def run(tier, seed):
         a = kernel.Acc()
         for prog in kernel.programs(alpha2, d2, first=firsts):
             nsw = sum(1 for o in prog if o[0] == "sw")
-            if nsw < 2 or (tier == "quick" and len(prog) == d2 and nsw < 3):
+            nher = sum(1 for o in prog if o[0] == "add" and o[1] != "bs2")
+            if nsw < 2 or (tier == "quick" and len(prog) == d2 and nsw < 3 and not (nher == 1 and prog[-1][0] == "add")):
                 continue
             for seq in (seqs2c[:1] + seqs2c[2:3] if tier == "quick" else seqs2c):
                 a.tick("executions"); a.tick("transitions", len(seq)); a.tick("stage2_cases")
